@@ -76,6 +76,25 @@ Print Assumptions check_inner_iff.
 Print Assumptions tool_exit_status_iff.
 Print Assumptions assemble_refuses_iff.
 
+
+(* selfCheck for geometries loaded WITH conductivities: triangle indices (unsigned(-1) on an isolated mesh), the
+   current-barrier / isolated / outermost flags - anything attached to a triangle (decoration D) - play no role: the verdict
+   is that of the bare meshes.  So selfCheck_iff above holds verbatim for a geometry loaded with any conductivity file, and
+   a self-check that consults triangle indices (seeded change C12-5) departs from the model. *)
+Theorem selfCheck_ignores_indices_and_flags : forall (T D : Type) (vid : T -> nat * nat * nat) (isect : T -> T -> bool) nested
+    (ms : list (list (D * T))),
+  self_check (D * T) (fun t => vid (snd t)) (fun a b => isect (snd a) (snd b)) nested ms =
+  self_check T vid isect nested (map (map snd) ms).
+Proof. exact self_check_decorated. Qed.
+Print Assumptions selfCheck_ignores_indices_and_flags.
+
+Theorem self_intersection_ignores_indices_and_flags : forall (T D : Type) (vid : T -> nat * nat * nat) (isect : T -> T -> bool)
+    (m : list (D * T)),
+  has_self_intersection (D * T) (fun t => vid (snd t)) (fun a b => isect (snd a) (snd b)) m =
+  has_self_intersection T vid isect (map snd m).
+Proof. exact hsi_decorated. Qed.
+Print Assumptions self_intersection_ignores_indices_and_flags.
+
 (* DESIGN 4 row 15, on the transcribed predicate itself: two crossing triangles that share no vertex; the predicate
    says they intersect, the pinned loop answers "no self intersection", the repaired loop reports it.
    Replayed on the code by the check (Mesh::has_self_intersection must answer true). *)
